@@ -18,6 +18,9 @@ import Rdm.Lemmas.BiasAReducedDecision
 import Rdm.Lemmas.BiasAOmissionSpec
 import Rdm.Lemmas.BiasAChoquetImportance
 import Rdm.Spec.C15
+import Rdm.Lemmas.E2EBiasesState
+import Rdm.Lemmas.E2EBiasesParts
+import Rdm.Lemmas.E2EBiasesExample
 set_option linter.unusedSectionVars false
 open Rdm Rdm.BiasA
 namespace Rdm.Props.C15
@@ -489,14 +492,14 @@ theorem omission_equals_reduced_problem {eps : Rat} {c : SplitCond Rat} {name : 
         (restrictRaw res.crit raw) = .ok reduced ∧
       reduced.crit = res.crit ∧ reduced.co = res.co ∧ reduced.nc = res.nc ∧
       ParamsMatch res.crit res.mp reduced.mp ∧
-      ∀ ds, evaluate eps res ds = evaluate eps reduced ds :=
+      ∀ ds, BiasA.evaluate eps res ds = BiasA.evaluate eps reduced ds :=
   omission_decision_eq_reduced hreq h hnd hkey
 
 /-- the lift on its own: matching parameters give the same decision on a state over the kept criteria -/
 theorem matching_parameters_same_decision {eps : Rat} {kept : List (Crit Rat)} {nc co : List (Alt Rat)}
     {mp' mp'' : MParams Rat} (hm : ParamsMatch kept mp' mp'') (hkn : (kept.map (·.id)).Nodup)
     (hco : ∀ a ∈ co, a.vals.keys = kept.map (·.id)) (ds : Draws Rat) :
-    evaluate eps ⟨nc, co, kept, mp'⟩ ds = evaluate eps ⟨nc, co, kept, mp''⟩ ds :=
+    BiasA.evaluate eps ⟨nc, co, kept, mp'⟩ ds = BiasA.evaluate eps ⟨nc, co, kept, mp''⟩ ds :=
   evaluate_paramsMatch hm hkn hco ds
 
 /-! ## the spec the driver evaluates on the implementation's output, on the model's output -/
@@ -570,5 +573,280 @@ example :
 /-- the constants and names this property depends on were re-read from the working tree on this run
     (none fell back to its pinned value because its declaration could not be located) -/
 theorem facts_fresh : (Rdm.Facts.staleFacts.all fun n => !["orderingWeakest", "orderingStrongest", "orderingRandom", "orderingWeakestByProbability", "orderingStrongestByProbability", "wiringOrderings", "biasOmission", "choquetEps"].contains n) = true := by decide
+
+/-! ## END TO END: a fired criteria omission inside a whole request
+
+The theorems above are about one `CriteriaOmission.Apply` in isolation.  Below they are lifted to responses
+of `decideWith` (the model of `MakeDecision`, Model/Decide.lean): **every** entry of `resp.biases` that carries an
+omission report — at any position of any bias list, whatever biases fired before and after it, for all seven
+methods — is one `omissionApply` from the state `s` the entry received to the state `s'` it handed on, where
+`s` and `s'` are tied to the response by `E2EBFired` (Lemmas/E2EBiases.lean): `s` is what the model's loop over the
+biases before the entry produces from the request's state (= the state handed on by the previous fired bias, or
+the request's state: `e2eb_fired_prev`, `e2eb_fired_first`), `s'` is what the loop over the biases after it
+starts from (and ends in `resp.final`, the state the method evaluates).  Every clause is then about the pair
+`(s, s')`.  The criteria ids of `s` are distinct because the request's are and no bias breaks that
+(`e2eb_fired_crit_nodup`), so that hypothesis of the isolated theorems disappears. -/
+
+section e2e
+variable {exp : α → α} {o : List (WCrit α) → List (WCrit α)} {req : Request α} {g : Int → Draws α}
+  {resp : Response α} {params s s' : DMP α} {chosen : List (Chosen α (BProps α))} {i : Nat} {name : String}
+  {prob : α} {c : SplitCond α} {ord : String} {seed : Int} {om : List (Crit α)}
+
+/-- **Every omission entry of a response that carries a report is one `CriteriaOmission.Apply` on the state it
+    received** (`E2EBFired`: that state `s`, the state `s'` handed on, and how both are tied to the response).
+    The entry's name is `criteriaOmission`, its props are a split condition `c`, an ordering `ord` and a
+    `randomSeed`, and the ordering resolver read the stream of that seed. -/
+theorem fired_omission_is_one_apply (h : decideWith exp o req g = .ok resp)
+    (hi : resp.biases[i]? = some ⟨name, prob, some (.omission om)⟩) :
+    ∃ params chosen c ord seed s s',
+      E2EBFired exp g req resp params chosen i ⟨name, prob, .split c ord seed⟩ (.omission om) s s' ∧
+      name = Facts.biasOmission ∧ omissionApply choquetEpsOf c ord s (g seed) = .ok (s', om) := by
+  obtain ⟨params, chosen, props, s, s', hf⟩ := e2eb_fired h hi
+  obtain ⟨hn, c, ord, seed, hp, ha⟩ := e2eb_fired_omission hf
+  dsimp only at hn hp
+  subst hp
+  exact ⟨params, chosen, c, ord, seed, s, s', hf, hn, ha⟩
+
+/-- the `Apply` call of a fired omission entry -/
+theorem fired_omission_apply
+    (hf : E2EBFired exp g req resp params chosen i ⟨name, prob, .split c ord seed⟩ (.omission om) s s') :
+    omissionApply choquetEpsOf c ord s (g seed) = .ok (s', om) := by
+  obtain ⟨_, c', ord', seed', hp, ha⟩ := e2eb_fired_omission hf
+  dsimp only at hp
+  cases hp
+  exact ha
+
+/-- `omission_partition`, end to end: the reported omitted criteria and the criteria handed on partition the
+    criteria RECEIVED (`om ++ s'.crit` is the ordering of the criteria of `s`, cut at the pivot); the number of
+    omitted criteria is the clamped pivot `⌊n·ratio⌋` of the number `n` of criteria of `s` -/
+theorem omission_partition_e2e
+    (hf : E2EBFired exp g req resp params chosen i ⟨name, prob, .split c ord seed⟩ (.omission om) s s') :
+    (om ++ s'.crit).Perm s.crit ∧ (om.length : Int) = c.pivot s.crit.length ∧
+      c.min ≤ c.pivot s.crit.length ∧ c.pivot s.crit.length ≤ c.max ∧
+      ∃ ordered, orderCriteria choquetEpsOf ord s (g seed) = .ok ordered ∧ om ++ s'.crit = ordered :=
+  omission_partition (fired_omission_apply hf)
+
+/-- `omission_disjoint`, end to end, without hypothesis: no reported omitted criterion is handed on -/
+theorem omission_disjoint_e2e
+    (hf : E2EBFired exp g req resp params chosen i ⟨name, prob, .split c ord seed⟩ (.omission om) s s') :
+    ∀ x ∈ om, ∀ k ∈ s'.crit, x.id ≠ k.id :=
+  omission_disjoint (fired_omission_apply hf) (e2eb_fired_crit_nodup hf).2.1
+
+/-- the omitted criteria are criteria of the REQUEST or criteria an earlier bias reported as added — never
+    anything else: they are criteria of `s`, and the criteria ids of `s` together with what the earlier biases
+    omitted are the request's ids together with what the earlier biases added -/
+theorem omitted_are_received_criteria
+    (hf : E2EBFired exp g req resp params chosen i ⟨name, prob, .split c ord seed⟩ (.omission om) s s') :
+    (∀ x ∈ om, x ∈ s.crit) ∧
+      (outsOmitted (resp.biases.take i) ++ s.crit.map (·.id)).Perm
+        (params.crit.map (·.id) ++ outsAdded (resp.biases.take i)) :=
+  ⟨fun _ hx => (omission_partition_e2e hf).1.subset (List.mem_append_left _ hx),
+   decideLoop_crit _ _ _ _ _ hf.before⟩
+
+/-- `omission_restricts` / `omission_hands_on_restricted_state`, end to end: the state handed on is the state
+    received with the omitted criteria deleted — criteria, every known alternative (same ids, same order,
+    considered / not considered as before, kept values untouched), and the method parameters
+    (`OnCriteriaRemoved` = `restrictParams`) -/
+theorem omission_hands_on_restricted_state_e2e
+    (hf : E2EBFired exp g req resp params chosen i ⟨name, prob, .split c ord seed⟩ (.omission om) s s') :
+    s' = restrictState s s'.crit ∧
+      List.Forall₂ (RestrictedTo s'.crit) s.co s'.co ∧ List.Forall₂ (RestrictedTo s'.crit) s.nc s'.nc ∧
+      onRemoved s.mp s'.crit = .ok s'.mp :=
+  ⟨omission_hands_on_restricted_state (fired_omission_apply hf), omission_restricts (fired_omission_apply hf)⟩
+
+/-- … so when no later bias fires, the method evaluates the received state with the omitted criteria deleted -/
+theorem last_fired_omission_decides_on_the_restricted_state (h : decideWith exp o req g = .ok resp)
+    (hf : E2EBFired exp g req resp params chosen i ⟨name, prob, .split c ord seed⟩ (.omission om) s s')
+    (hlast : ∀ j, i < j → ∀ x, resp.biases[j]? = some x → x.report = none) :
+    resp.final = restrictState s resp.final.crit ∧
+      evaluateWith o g (restrictState s resp.final.crit) = .ok resp.result := by
+  have e := e2eb_fired_last hf hlast
+  have hr := (omission_hands_on_restricted_state_e2e hf).1
+  rw [← e] at hr
+  exact ⟨hr, hr ▸ (e2e_decideWith_ok h).2⟩
+
+end e2e
+
+section e2eRat
+variable {exp : Rat → Rat} {o : List (WCrit Rat) → List (WCrit Rat)} {req : Request Rat} {g : Int → Draws Rat}
+  {resp : Response Rat} {params s s' : DMP Rat} {chosen : List (Chosen Rat (BProps Rat))} {i : Nat}
+  {name : String} {prob : Rat} {c : SplitCond Rat} {ord : String} {seed : Int} {om : List (Crit Rat)}
+
+/-- `omission_countOk`, end to end: the count clause of the spec, on the number of criteria RECEIVED -/
+theorem omission_countOk_e2e
+    (hf : E2EBFired exp g req resp params chosen i ⟨name, prob, .split c ord seed⟩ (.omission om) s s') :
+    Spec.C15.countOk c s.crit.length om.length = true := omission_countOk (fired_omission_apply hf)
+
+/-- weakest first, end to end: with ordering `weakest` no criterion handed on is less important — under the
+    listener's ranking of the state RECEIVED — than an omitted one -/
+theorem weakest_omits_least_important_e2e
+    (hf : E2EBFired exp g req resp params chosen i ⟨name, prob, .split c Facts.orderingWeakest seed⟩
+      (.omission om) s s') :
+    ∃ ro rk, rankAsc choquetEpsOf s = .ok (ro ++ rk) ∧ om = ro.map (·.crit) ∧
+      s'.crit = rk.map (·.crit) ∧ ∀ x ∈ ro, ∀ k ∈ rk, x.w ≤ k.w :=
+  weakest_omits_least_important (fired_omission_apply hf)
+
+/-- … and with `strongest` no omitted criterion is less important than one handed on -/
+theorem strongest_omits_most_important_e2e
+    (hf : E2EBFired exp g req resp params chosen i ⟨name, prob, .split c Facts.orderingStrongest seed⟩
+      (.omission om) s s') :
+    ∃ ro rk, (rankAsc choquetEpsOf s).map List.reverse = .ok (ro ++ rk) ∧ om = ro.map (·.crit) ∧
+      s'.crit = rk.map (·.crit) ∧ ∀ x ∈ ro, ∀ k ∈ rk, k.w ≤ x.w :=
+  strongest_omits_most_important (fired_omission_apply hf)
+
+/-- **`omission_satisfies_spec`, end to end: every fired omission entry of a response satisfies the omission
+    spec w.r.t. the state it received.**  `Spec.C15.check` (count, partition, restriction of considered and
+    not-considered alternatives, importance for `weakest` / default / `strongest`) accepts
+    `(s, s', reported omitted criteria)` with `ranked` the listener's ranking of `s` — whatever biases ran
+    before and after, for all seven methods.
+    Hypotheses about `s` that remain (the distinctness of the criteria ids is discharged): the value keys of
+    its considered alternatives are distinct (Go maps); for weighted sum the parameter list has an entry for
+    every criterion of `s`. -/
+theorem omission_satisfies_spec_e2e {ranked : List (WCrit Rat)}
+    (hf : E2EBFired exp g req resp params chosen i ⟨name, prob, .split c ord seed⟩ (.omission om) s s')
+    (hr : rankAsc choquetEpsOf s = .ok ranked) (hco : ∀ a ∈ s.co, a.vals.keys.Nodup)
+    (hws : ∀ wc, s.mp = .ws wc → ∀ x ∈ s.crit, ∃ y ∈ wc, y.crit.id = x.id) :
+    Spec.C15.check ord c s s' om ranked = true ∧ Spec.C15.explain ord c s s' om ranked = "ok" :=
+  ⟨omission_satisfies_spec (fired_omission_apply hf) hr (e2eb_fired_crit_nodup hf).2.1 hco hws,
+   omission_explain_ok (fired_omission_apply hf) hr (e2eb_fired_crit_nodup hf).2.1 hco hws⟩
+
+end e2eRat
+
+/-! ### M6(a): responses in which only omissions fire -/
+
+/-- **only omissions fire ⇒ the final criteria are the request's criteria minus the union of the reported
+    omitted criteria.**  Precisely: the reported omitted criteria (all fired entries, in order) followed by the
+    criteria the method evaluates are a permutation of the request's criteria; a criterion is evaluated iff it is
+    a request criterion whose id no entry reports; and (unless nothing fired) every known alternative the method
+    sees is the request's alternative at the same position restricted to the final criteria.
+    NOT claimed — false for the model and the code: that the final criteria keep the request's order.  Each
+    omission hands on the tail of ITS ordering of the criteria it received (`omission_partition_e2e`), so the
+    final order is that of the last fired omission's ordering (see the example below the theorem). -/
+theorem only_omissions_final_criteria {exp : α → α} {o : List (WCrit α) → List (WCrit α)} {req : Request α}
+    {g : Int → Draws α} {resp : Response α} (h : decideWith exp o req g = .ok resp)
+    (hall : E2EBOnlyOmissions resp.biases) :
+    (e2ebOmitted resp.biases ++ resp.final.crit).Perm req.crit ∧
+    (∀ x, x ∈ resp.final.crit ↔ x ∈ req.crit ∧ x.id ∉ (e2ebOmitted resp.biases).map (·.id)) ∧
+    ∃ params chosen, prepare req = .ok (params, chosen) ∧
+      (resp.final = params ∨ (resp.final.co = params.co.map (restrictAlt resp.final.crit) ∧
+                               resp.final.nc = params.nc.map (restrictAlt resp.final.crit))) := by
+  obtain ⟨params, chosen, hprep, hrun, _⟩ := e2eb_decide_run h
+  obtain ⟨hperm, halts⟩ := e2eb_loop_only_omissions chosen _ _ _ _ hrun hall
+  obtain ⟨hv, mp, _, hpp, _⟩ := decidePrepare_ok hprep
+  obtain ⟨_, _, _, hcr, _⟩ := e2e_prepareParams_ok hpp
+  rw [hcr] at hperm
+  have hnd : (req.crit.map (·.id)).Nodup := by
+    unfold validateRequest at hv
+    dsimp only at hv
+    split at hv
+    · simp [throw, throwThe, MonadExceptOf.throw, bind, Except.bind] at hv
+    · obtain ⟨_, hvc, _⟩ := BiasA.bind_ok.mp hv
+      exact (decideValidateCriteria_nodup _ _ hvc).1
+  refine ⟨hperm, ?_, params, chosen, hprep, halts⟩
+  have hnd' : ((e2ebOmitted resp.biases ++ resp.final.crit).map (·.id)).Nodup :=
+    (hperm.map _).nodup_iff.mpr hnd
+  rw [List.map_append, List.nodup_append] at hnd'
+  intro x
+  constructor
+  · intro hx
+    refine ⟨hperm.subset (List.mem_append_right _ hx), ?_⟩
+    intro hmem
+    exact hnd'.2.2 _ hmem _ (List.mem_map_of_mem hx) rfl
+  · rintro ⟨hx, hnot⟩
+    rcases List.mem_append.mp (hperm.symm.subset hx) with hx' | hx'
+    · exact absurd (List.mem_map_of_mem hx') hnot
+    · exact hx'
+
+/-- the hypotheses are satisfiable: two omissions fire (an entry between them does not), nothing else -/
+example : ∃ resp, Rdm.decide id (e2ebExReq [e2ebExOmission, e2ebExSkipped, e2ebExOmission]) e2ebExSeeds = .ok resp ∧
+    E2EBOnlyOmissions resp.biases ∧ (e2ebOmitted resp.biases).length = 1 := by
+  have hb : (match Rdm.decide id (e2ebExReq [e2ebExOmission, e2ebExSkipped, e2ebExOmission]) e2ebExSeeds with
+      | .ok r => e2ebOnlyOmissionsB r.biases && decide ((e2ebOmitted r.biases).length = 1)
+      | .error _ => false) = true := by decide +kernel
+  cases hx : Rdm.decide id (e2ebExReq [e2ebExOmission, e2ebExSkipped, e2ebExOmission]) e2ebExSeeds with
+  | error e => rw [hx] at hb; cases hb
+  | ok r =>
+    rw [hx] at hb
+    simp only [Bool.and_eq_true, decide_eq_true_eq] at hb
+    exact ⟨r, rfl, e2eb_onlyOmissions_of_B hb.1, hb.2⟩
+
+/-- the order is NOT preserved: criteria `c0, c1, c2`, one omission with the shuffled ordering `c1, c2, c0` and
+    ratio ½ omits `c1`; the method evaluates `c2, c0` — the request's criteria minus the omitted one, in the
+    ordering's order, not the request's -/
+example : (match Rdm.decide id (e2ebExReq3 [e2ebExOmission]) e2ebExSeeds with
+    | .ok r => r.final.crit.map (·.id) == ["c2", "c0"] &&
+        (r.biases.all fun x => match x.report with | some (.omission _) => true | _ => false)
+    | .error _ => false) = true := by decide +kernel
+
+/-! ### the hypotheses are satisfiable: a request in which the omission is the second fired bias -/
+
+/-- fatigue fires, an entry does not fire, then the omission fires: the response exists and its third entry
+    carries an omission report -/
+example : ∃ resp name prob om n0 p0 r0,
+    Rdm.decide id (e2ebExReq [e2ebExFatigue, e2ebExSkipped, e2ebExOmission]) e2ebExSeeds = .ok resp ∧
+    resp.biases[2]? = some ⟨name, prob, some (.omission om)⟩ ∧ resp.biases[0]? = some ⟨n0, p0, some r0⟩ := by
+  obtain ⟨resp, name, prob, rep, hr, h2, hk, n0, p0, r0, h0⟩ := e2eb_firedWith
+    (r := Rdm.decide id (e2ebExReq [e2ebExFatigue, e2ebExSkipped, e2ebExOmission]) e2ebExSeeds)
+    (j := 0) (i := 2) (k := e2ebIsOmission) (by decide +kernel)
+  cases rep with
+  | omission om => exact ⟨resp, name, prob, om, n0, p0, r0, hr, h2, h0⟩
+  | _ => cases hk
+
+/-- … and on it every hypothesis of `omission_satisfies_spec_e2e` holds of the state the omission received (the
+    state the fatigue handed on), so the spec accepts the entry -/
+example : ∃ resp name prob om c ord s s' ranked,
+    Rdm.decide id (e2ebExReq [e2ebExFatigue, e2ebExSkipped, e2ebExOmission]) e2ebExSeeds = .ok resp ∧
+    resp.biases[2]? = some ⟨name, prob, some (.omission om)⟩ ∧ s ≠ s' ∧
+    Spec.C15.check ord c s s' om ranked = true := by
+  obtain ⟨resp, name, prob, rep, hr, h2, hk, _⟩ := e2eb_firedWith
+    (r := Rdm.decide id (e2ebExReq [e2ebExFatigue, e2ebExSkipped, e2ebExOmission]) e2ebExSeeds)
+    (j := 0) (i := 2) (k := e2ebIsOmission) (by decide +kernel)
+  cases rep with
+  | omission om =>
+    obtain ⟨params, chosen, c, ord, seed, s, s', hf, _, ha⟩ := fired_omission_is_one_apply hr h2
+    have hs := e2eb_received_sat hf (k := fun s =>
+      (rankAsc choquetEpsOf s).isOk && decide (∀ a ∈ s.co, a.vals.keys.Nodup) &&
+      (match s.mp with
+       | .ws wc => decide (∀ x ∈ s.crit, ∃ y ∈ wc, y.crit.id = x.id)
+       | _ => true) && decide (s.crit.length = 2)) (by decide +kernel)
+    simp only [Bool.and_eq_true, decide_eq_true_eq] at hs
+    obtain ⟨⟨⟨hrank, hco⟩, hws⟩, hlen⟩ := hs
+    obtain ⟨ranked, hrank⟩ := e2e_ok_of_isOk hrank
+    have hws' : ∀ wc, s.mp = .ws wc → ∀ x ∈ s.crit, ∃ y ∈ wc, y.crit.id = x.id := by
+      intro wc hwc
+      rw [hwc] at hws
+      simpa using hws
+    have hne : s ≠ s' := by
+      intro e
+      have hp := (omission_partition_e2e hf).1.length_eq
+      have hc := omission_countOk_e2e hf
+      rw [← e, List.length_append, hlen] at hp
+      have hom : om.length = 0 := by omega
+      rw [hlen, hom] at hc
+      obtain ⟨_, c', ord', seed', hpr, _⟩ := e2eb_fired_omission hf
+      have hch : chosen[2]? = some ⟨name, prob, .split c ord seed⟩ := hf.entry
+      have hprep := hf.prepared
+      have : chosen = [⟨Facts.biasFatigue, 1, (e2ebExFatigue).props⟩, ⟨Facts.biasReversal, 1 / 4, e2ebExSkipped.props⟩,
+          ⟨Facts.biasOmission, 1, e2ebExOmission.props⟩] := by
+        have : prepare (e2ebExReq [e2ebExFatigue, e2ebExSkipped, e2ebExOmission]) =
+            .ok (⟨[⟨"d", [("c0", 0), ("c1", 4)]⟩], [⟨"b", [("c0", 3), ("c1", 1)]⟩, ⟨"a", [("c0", 1), ("c1", 2)]⟩],
+              [e2eExC0, e2eExC1], .ws [⟨e2eExC0, 1⟩, ⟨e2eExC1, 2⟩]⟩,
+             [⟨Facts.biasFatigue, 1, (e2ebExFatigue).props⟩, ⟨Facts.biasReversal, 1 / 4, e2ebExSkipped.props⟩,
+              ⟨Facts.biasOmission, 1, e2ebExOmission.props⟩]) := rfl
+        rw [this] at hprep
+        cases hprep
+        rfl
+      subst this
+      simp only [List.getElem?_cons_succ, List.getElem?_cons_zero, Option.some.injEq] at hch
+      have hc' : c = ⟨1 / 2, 0, maxInt64⟩ := by
+        have := congrArg Chosen.props hch
+        simp only [e2ebExOmission, BProps.split.injEq] at this
+        exact this.1.symm
+      subst hc'
+      revert hc
+      decide +kernel
+    exact ⟨resp, name, prob, om, c, ord, s, s', ranked, hr, h2, hne,
+      (omission_satisfies_spec_e2e hf hrank hco hws').1⟩
+  | _ => cases hk
 
 end Rdm.Props.C15
